@@ -746,6 +746,9 @@ class Verifier:
         key = f"{sv.ty.key}.{attr}"
         tstr = self.c.attrs.get(key) or self.default_policies.get("attrs", {}).get(key)
         if tstr is None:
+            dflt = self.c.ghost.get("abs_attr_default")
+            if callable(dflt):
+                return dflt(I, sv, attr)  # any other attribute of an abstract value: the sidecar's generic model (e.g. attr_of(value, name))
             raise Unsupported(f"attribute {key} of abstract sort is not declared")
         if callable(tstr):
             return lambda I2, *a, **k: tstr(I2, [sv] + list(a), k, node)
